@@ -275,7 +275,8 @@ func checkC10Pipe(c C10Pipe) *Violation {
 // ---- (3) write conv -c cmt | write
 
 type C10Conv struct {
-	Doc Doc `json:"doc"`
+	Doc     Doc  `json:"doc"`
+	InPlace bool `json:"in_place,omitempty"` // the document is annotated where it lies: write conv FILE -o FILE
 }
 
 func checkC10Conv(c C10Conv) *Violation {
@@ -288,6 +289,15 @@ func checkC10Conv(c C10Conv) *Violation {
 		return vio("write-failed", "%v%s", err, ctx)
 	}
 	conv := crd(y, "write", "conv", "-c", "cmt")
+	if c.InPlace {
+		conv = Run{Argv: []string{"write", "conv", "-c", "cmt", "@song.yml", "-o", "@song.yml"}, Files: map[string]string{"song.yml": y}, OutArg: "song.yml", NoStdin: true}.Exec()
+		if conv.Exit == 0 {
+			if len(conv.Stdout) != 0 {
+				return vio("stdout-with-o", "write conv FILE -o FILE also prints %d bytes%s", len(conv.Stdout), ctx)
+			}
+			conv.Stdout = conv.OutFile // what the next stage reads
+		}
+	}
 	if v := cleanOutcome(conv); v != nil {
 		return v
 	}
@@ -471,7 +481,7 @@ func TestC10WriteConv(t *testing.T) {
 	rapid.Check(t, func(t *rapid.T) {
 		d := genDoc(o).Draw(t, "doc")
 		d.Flags = Flags{Track: 1}
-		c := C10Conv{Doc: d}
+		c := C10Conv{Doc: d, InPlace: coin(t, "in-place", 20)}
 		nt := false
 		for _, in := range d.Insts {
 			if in.Chord != nil && (len(theory.ChordTable[in.Chord.Sym]) != 3 || in.Chord.Bass != nil) {
